@@ -183,7 +183,7 @@ func c20Body(role string, variant string) func() {
 		// task sent: the retransmission reads the timer task's message objects, and the task goes on
 		in("2", "7=1", "16=0")
 		time.Sleep(500 * time.Millisecond) // (the test-request timer expires as well)
-		in("0", "112=1")                    // the answer to the session's TestRequest
+		in("0", "112=1")                   // the answer to the session's TestRequest
 		in("D", "11=x")
 		for i := 0; i < 4; i++ {
 			<-done
